@@ -6,14 +6,14 @@ Import ListNotations.
 
 (* ---------- concrete schedules (evaluated before anything was proved) ---------- *)
 
-Definition ex_threads : list tstate :=
+Definition ex_threads : list cthread :=
   [TReload (BOk 1); TReq true; TReload BFail; TReq false; TReload (BOk 2)].
 
 (* thread 1 (a request) loads between thread 0's build and its store, so it is served from the OLD set 0 although it
    returns after the Reload has returned; thread 2 is a failing Reload; thread 3 starts after everything and sees 1;
    thread 4 never runs *)
 Example ex_between :
-  let s := crun (cinit (Some 0) ex_threads) [0; 1; 0; 2; 1; 3; 3] in
+  let s := crun (conc_init (Some 0) ex_threads) [0; 1; 0; 2; 1; 3; 3] in
   c_lin s = [1; 0; 2; 3] /\
   c_threads s = [TDone AReloadOk; TDone (AServed 0); TDone AReloadErr; TDone (ANotFound 1); TReload (BOk 2)] /\
   c_cur s = Some 1 /\
@@ -26,7 +26,7 @@ Proof. repeat split; reflexivity. Qed.
 (* no set at the start, two successful Reloads whose stores are in the opposite order of their builds, a failing
    Reload, steps of finished threads and of a thread number that does not exist (7) *)
 Example ex_two_reloads :
-  let s := crun (cinit None ex_threads) [1; 2; 0; 4; 4; 3; 0; 1; 3; 7; 1; 0] in
+  let s := crun (conc_init None ex_threads) [1; 2; 0; 4; 4; 3; 0; 1; 3; 7; 1; 0] in
   c_lin s = [1; 2; 4; 3; 0] /\
   c_threads s = [TDone AReloadOk; TDone ANoSet; TDone AReloadErr; TDone (ANotFound 2); TDone AReloadOk] /\
   c_cur s = Some 1 /\
@@ -195,7 +195,7 @@ Qed.
 (* ---------- the invariant ---------- *)
 
 (* what thread i's current state t says about its start state and about the linearization order so far *)
-Definition tok (c0 : option version) (th : list tstate) (lin : list nat) (i : nat) (t : tstate) : Prop :=
+Definition tok (c0 : option version) (th : list cthread) (lin : list nat) (i : nat) (t : cthread) : Prop :=
   match t with
   | TReload b => nth_error th i = Some (TReload b) /\ ~ In i lin
   | TBuilt v => nth_error th i = Some (TReload (BOk v)) /\ ~ In i lin
@@ -206,7 +206,7 @@ Definition tok (c0 : option version) (th : list tstate) (lin : list nat) (i : na
       a = snd (rstep false (mkRS (last_success c0 (ops_of th l1))) o)
   end.
 
-Record Inv (c0 : option version) (th : list tstate) (s : cstate) : Prop := mkInv {
+Record Inv (c0 : option version) (th : list cthread) (s : cstate) : Prop := mkInv {
   I_len : length (c_threads s) = length th;
   I_nodup : NoDup (c_lin s);
   I_valid : forall i, In i (c_lin s) -> i < length th;
@@ -228,9 +228,9 @@ Proof.
     split; [|auto]. rewrite E. rewrite <- app_assoc. reflexivity.
 Qed.
 
-Lemma inv_init : forall c0 th, fresh th -> Inv c0 th (cinit c0 th).
+Lemma inv_init : forall c0 th, fresh th -> Inv c0 th (conc_init c0 th).
 Proof.
-  intros c0 th Hf. constructor; cbn [cinit c_cur c_threads c_lin].
+  intros c0 th Hf. constructor; cbn [conc_init c_cur c_threads c_lin].
   - reflexivity.
   - constructor.
   - intros i [].
@@ -311,7 +311,7 @@ Proof.
   cbn [crun fold_left]. apply IH. apply inv_step. exact HI.
 Qed.
 
-Lemma inv_reach : forall c th sched, fresh th -> Inv c th (crun (cinit c th) sched).
+Lemma inv_reach : forall c th sched, fresh th -> Inv c th (crun (conc_init c th) sched).
 Proof. intros c th sched Hf. apply inv_crun. apply inv_init. exact Hf. Qed.
 
 (* a finished thread: its place in the order and its answer *)
@@ -335,20 +335,20 @@ Qed.
 (* ---------- 5 ---------- *)
 
 Theorem no_torn_state : forall c threads sched, fresh threads ->
-  c_cur (crun (cinit c threads) sched) = last_success c (ops_of threads (c_lin (crun (cinit c threads) sched))).
+  c_cur (crun (conc_init c threads) sched) = last_success c (ops_of threads (c_lin (crun (conc_init c threads) sched))).
 Proof. intros c threads sched Hf. exact (I_cur _ _ _ (inv_reach c threads sched Hf)). Qed.
 
 (* ---------- 2 ---------- *)
 
-Theorem lin_nodup : forall c threads sched, fresh threads -> NoDup (c_lin (crun (cinit c threads) sched)).
+Theorem lin_nodup : forall c threads sched, fresh threads -> NoDup (c_lin (crun (conc_init c threads) sched)).
 Proof. intros c threads sched Hf. exact (I_nodup _ _ _ (inv_reach c threads sched Hf)). Qed.
 
 (* ---------- 1 ---------- *)
 
 Theorem linearizable : forall c threads sched i a, fresh threads ->
-  nth_error (c_threads (crun (cinit c threads) sched)) i = Some (TDone a) ->
-  exists k, index_of (c_lin (crun (cinit c threads) sched)) i = Some k /\
-            nth_error (run false (mkRS c) (ops_of threads (c_lin (crun (cinit c threads) sched)))) k = Some a.
+  nth_error (c_threads (crun (conc_init c threads) sched)) i = Some (TDone a) ->
+  exists k, index_of (c_lin (crun (conc_init c threads) sched)) i = Some k /\
+            nth_error (run false (mkRS c) (ops_of threads (c_lin (crun (conc_init c threads) sched)))) k = Some a.
 Proof.
   intros c threads sched i a Hf Hd. pose proof (inv_reach c threads sched Hf) as HI.
   pose proof (I_thr _ _ _ HI i _ Hd) as Ht. cbn [tok] in Ht.
@@ -360,18 +360,18 @@ Qed.
 
 Theorem real_time_order : forall c threads sched s1 s2 i j kj, fresh threads ->
   sched = s1 ++ s2 ->
-  (exists ai, nth_error (c_threads (crun (cinit c threads) s1)) i = Some (TDone ai)) ->
+  (exists ai, nth_error (c_threads (crun (conc_init c threads) s1)) i = Some (TDone ai)) ->
   ~ In j s1 ->
-  index_of (c_lin (crun (cinit c threads) sched)) j = Some kj ->
-  exists ki, index_of (c_lin (crun (cinit c threads) sched)) i = Some ki /\ ki < kj.
+  index_of (c_lin (crun (conc_init c threads) sched)) j = Some kj ->
+  exists ki, index_of (c_lin (crun (conc_init c threads) sched)) i = Some ki /\ ki < kj.
 Proof.
   intros c threads sched s1 s2 i j kj Hf Es [ai Hd] Hnj Hj. subst sched.
   pose proof (inv_reach c threads s1 Hf) as HI1.
   pose proof (inv_reach c threads (s1 ++ s2) Hf) as HI.
   pose proof (I_thr _ _ _ HI1 i _ Hd) as Ht. cbn [tok] in Ht.
   destruct Ht as [l1 [l2 [t0 [o [E [E0 [Eo Ha]]]]]]].
-  destruct (lin_ext s1 (cinit c threads)) as [ext1 [X1 Hin1]]. cbn [cinit c_lin app] in X1.
-  rewrite crun_app in *. destruct (lin_ext s2 (crun (cinit c threads) s1)) as [ext2 [X2 _]].
+  destruct (lin_ext s1 (conc_init c threads)) as [ext1 [X1 Hin1]]. cbn [conc_init c_lin app] in X1.
+  rewrite crun_app in *. destruct (lin_ext s2 (crun (conc_init c threads) s1)) as [ext2 [X2 _]].
   assert (Hnj1 : ~ In j (l1 ++ i :: l2)).
   { rewrite <- E, X1. intro Hin. apply Hnj. apply Hin1. exact Hin. }
   rewrite E in X2. pose proof (I_nodup _ _ _ HI) as Hnd. rewrite X2 in Hnd, Hj |- *.
@@ -395,13 +395,13 @@ Proof. intros t v H. destruct t as [b|w|ex|m ex|a]; cbn [op_of_start] in H; try 
 Theorem request_after_reload_sees_it_strong : forall c threads sched s1 s2 r q v ex a, fresh threads ->
   sched = s1 ++ s2 ->
   nth_error threads r = Some (TReload (BOk v)) -> nth_error threads q = Some (TReq ex) ->
-  nth_error (c_threads (crun (cinit c threads) s1)) r = Some (TDone AReloadOk) -> ~ In q s1 ->
-  nth_error (c_threads (crun (cinit c threads) sched)) q = Some (TDone a) ->
+  nth_error (c_threads (crun (conc_init c threads) s1)) r = Some (TDone AReloadOk) -> ~ In q s1 ->
+  nth_error (c_threads (crun (conc_init c threads) sched)) q = Some (TDone a) ->
   exists v', a = lookup_in v' ex /\
     (v' = v \/ exists r' kr kr' kq, r' <> r /\ nth_error threads r' = Some (TReload (BOk v')) /\
-       index_of (c_lin (crun (cinit c threads) sched)) r = Some kr /\
-       index_of (c_lin (crun (cinit c threads) sched)) r' = Some kr' /\
-       index_of (c_lin (crun (cinit c threads) sched)) q = Some kq /\ kr < kr' /\ kr' < kq).
+       index_of (c_lin (crun (conc_init c threads) sched)) r = Some kr /\
+       index_of (c_lin (crun (conc_init c threads) sched)) r' = Some kr' /\
+       index_of (c_lin (crun (conc_init c threads) sched)) q = Some kq /\ kr < kr' /\ kr' < kq).
 Proof.
   intros c threads sched s1 s2 r q v ex a Hf Es Hr Hq Hrd Hnq Hqd. subst sched.
   pose proof (inv_reach c threads s1 Hf) as HI1.
@@ -411,9 +411,9 @@ Proof.
   pose proof (I_thr _ _ _ HI q _ Hqd) as Htq. cbn [tok] in Htq.
   destruct Htq as [m1 [m2 [tq [oq [Eq [Eq0 [Eqo Ha]]]]]]].
   rewrite Hq in Eq0. injection Eq0 as <-. cbn [op_of_start] in Eqo. injection Eqo as <-.
-  destruct (lin_ext s1 (cinit c threads)) as [ext1 [X1 Hin1]]. cbn [cinit c_lin app] in X1.
+  destruct (lin_ext s1 (conc_init c threads)) as [ext1 [X1 Hin1]]. cbn [conc_init c_lin app] in X1.
   pose proof (I_nodup _ _ _ HI) as Hnd.
-  rewrite crun_app in *. destruct (lin_ext s2 (crun (cinit c threads) s1)) as [ext2 [X2 _]].
+  rewrite crun_app in *. destruct (lin_ext s2 (crun (conc_init c threads) s1)) as [ext2 [X2 _]].
   assert (Hnq1 : ~ In q (l1 ++ r :: l2)).
   { rewrite <- Er, X1. intro Hin. apply Hnq. apply Hin1. exact Hin. }
   rewrite Er in X2. rewrite Eq in X2. symmetry in X2.
@@ -453,8 +453,8 @@ Qed.
 Corollary request_after_reload_sees_it : forall c threads sched s1 s2 r q v ex a, fresh threads ->
   sched = s1 ++ s2 ->
   nth_error threads r = Some (TReload (BOk v)) -> nth_error threads q = Some (TReq ex) ->
-  nth_error (c_threads (crun (cinit c threads) s1)) r = Some (TDone AReloadOk) -> ~ In q s1 ->
-  nth_error (c_threads (crun (cinit c threads) sched)) q = Some (TDone a) ->
+  nth_error (c_threads (crun (conc_init c threads) s1)) r = Some (TDone AReloadOk) -> ~ In q s1 ->
+  nth_error (c_threads (crun (conc_init c threads) sched)) q = Some (TDone a) ->
   exists v', a = lookup_in v' ex /\
     (v' = v \/ exists r', r' <> r /\ nth_error threads r' = Some (TReload (BOk v'))).
 Proof.
